@@ -382,6 +382,16 @@ func runC09(c *mon.Ctx) {
 					}
 				}
 				steps = append(steps, step{ac.state, ac.ev, ac.kind, cw})
+				if mixRooms && sr.Chance(0.15) && sameRoom(ac.state) {
+					// the same event against the same state plus a MEMBER event of another room, straight after: create, power
+					// levels and join rules are the very events the checker has just loaded, only the extra event is foreign
+					// (tenth seeding round, C10-T: "all of one room" remembered from the last time those three were loaded)
+					ow := gen.Pick(sr, worlds)
+					if fm := ow.members[[2]string{gen.Pick(sr, authUsers), "join"}]; ow != cw && fm != nil {
+						steps = append(steps, step{append(append([]gmsl.PDU{}, ac.state...), fm), ac.ev, ac.kind + "+member-event-of-another-room-after-the-same-state", cw})
+						interesting = true
+					}
+				}
 				if sr.Chance(0.08) && len(cw.pls) > 0 {
 					// two power-levels events judged against the SAME power-levels event one after the other: one from the
 					// creator, one from the most powerful other user (what the first looks at must not leak into the second)
